@@ -144,6 +144,18 @@ func init() {
 					sc.Remote[u] = sim.RemoteSpec{Doc: m}
 					one(fmt.Sprintf("%s:remote[%s]:%s", ce.Name, u, how), sc)
 				})
+				// the whole document retyped to other well-formed known types (never thinned out)
+				for _, other := range []string{"Note", "Person", "Collection", "OrderedCollection", "OrderedCollectionPage", "Link", "Tombstone", "Follow", "Like", "Create", "Undo", "Question", "Relationship"} {
+					var c map[string]interface{}
+					mustRoundTrip(rs.Doc, &c)
+					if c["type"] == other {
+						continue
+					}
+					c["type"] = other
+					sc := cloneScenario(base)
+					sc.Remote[u] = sim.RemoteSpec{Doc: c}
+					one(fmt.Sprintf("%s:remote[%s]:retyped=%s", ce.Name, u, other), sc)
+				}
 				for _, raw := range []string{"", "null", "[]", "\"str\"", "{", "{\"type\":5}", "{\"@context\":\"https://www.w3.org/ns/activitystreams\"}"} {
 					if !keep() {
 						continue
@@ -176,6 +188,17 @@ func init() {
 					sc.Store[u] = m
 					one(fmt.Sprintf("%s:store[%s]:%s", ce.Name, u, how), sc)
 				})
+				for _, other := range []string{"Note", "Person", "Collection", "OrderedCollection", "Link", "Tombstone", "Follow", "Like", "Create", "Question"} {
+					var c map[string]interface{}
+					mustRoundTrip(base.Store[u], &c)
+					if c["type"] == other {
+						continue
+					}
+					c["type"] = other
+					sc := cloneScenario(base)
+					sc.Store[u] = c
+					one(fmt.Sprintf("%s:store[%s]:retyped=%s", ce.Name, u, other), sc)
+				}
 			}
 			// (d) pages served by GetInbox/GetOutbox
 			for _, which := range []string{"inbox", "outbox"} {
